@@ -1,13 +1,19 @@
 /* unit hp_scan — ghost state and obligations for C01 / C03 (Hazard Pointer SMR) */
 #include <vx_c.h>
 /* Address values of retired objects / hazard slots: pointers into one arena object (so that ordering them with < is a
-   same-object comparison for the verifier), at any offset 1..63, odd or even. The scan code only compares them (order,
-   equality) and tests the LSB, so this small domain realises every order type with every parity assignment
-   (offset = 2*rank + parity) [data abstraction, stated in the evidence]. Never dereferenced. */
+   same-object comparison for the verifier), at any offset 1..63, odd or even: realises every order type with every parity assignment. The wide-span
+   variant below covers address arithmetic beyond 32 bits. Never dereferenced. */
+#ifdef VX_WIDE
+/* wide-span variant: address values are integers below 2^VX_WIDE (default 2^34 = 16 GiB, spans that do not fit 32 bits are
+   inside the check), converted to pointers; run with the pointer checks off (such pointers have no object for CBMC) */
+void* vx_nondet_ptr(void) { size_t v; __CPROVER_assume(v >= 1 && v < ((size_t)1 << VX_WIDE)); return (void*)v; }
+void* vx_nondet_ptr_or_null(void) { size_t v; __CPROVER_assume(v < ((size_t)1 << VX_WIDE)); return (void*)v; }
+#else
 #define VX_ADDR_BOUND 64
 char vx_arena[VX_ADDR_BOUND];
 void* vx_nondet_ptr(void) { unsigned v; __CPROVER_assume(v >= 1 && v < VX_ADDR_BOUND); return &vx_arena[v]; }
 void* vx_nondet_ptr_or_null(void) { unsigned v; __CPROVER_assume(v < VX_ADDR_BOUND); return v ? (void*)&vx_arena[v] : NULL; }
+#endif
 int vx_nondet_int(void) { int v; return v; }
 size_t vx_nondet_size(void) { size_t v; return v; }
 void vx_throw(void) { __CPROVER_assume(0); }
